@@ -30,7 +30,7 @@ BASE_TRUSTED = [
 class Spec:
     def __init__(self, pid, prop_file, harness=None, overlay=None, args_quick=(), args_thorough=(),
                  args_search=(), race=False, assumptions=(), modelled=(), extra_targets=(),
-                 harness_timeout=900, harness_env=None, post=None, thorough_extra=()):
+                 harness_timeout=900, harness_env=None, post=None, thorough_extra=(), search_extra=()):
         self.pid = pid
         self.prop_file = prop_file          # e.g. Props/C18.v
         self.harness = harness              # harness directory name under /verif/harness
@@ -48,6 +48,9 @@ class Spec:
         # [(harness, overlay, args_thorough, race[, args_quick])]: further harnesses; run in the thorough tier,
         # and in the quick tier too when args_quick is given
         self.thorough_extra = list(thorough_extra)
+        # [(harness, overlay, args, race)]: run only when an obligation or the correspondence broke and no failing input
+        # has been found yet (may be slow)
+        self.search_extra = list(search_extra)
 
 
 def parse_assumptions(out):
@@ -92,7 +95,7 @@ def run(spec, tier, seed, replay=None):
             want = json.load(open(replay)).get("harness")
         except Exception:
             want = None
-        for ex in spec.thorough_extra:
+        for ex in list(spec.thorough_extra) + list(spec.search_extra):
             if want and ex[0] == want and want != spec.harness:
                 hname, hov, hrace = ex[0], ex[1], ex[3]
         ok, binp, blog = vlib.build_harness(hname, hov, race=hrace)
@@ -229,6 +232,16 @@ def run(spec, tier, seed, replay=None):
     if problems and not oracle_fail and spec.harness and spec.args_search and not any(p["kind"] == "harness-build" for p in problems):
         for k in range(2):
             s = harness_round(spec.args_search, int(seed) * 7919 + 17 + k, "search%d" % k)
+            if s:
+                oracle_fail = [f for f in (s.get("failures") or []) if f.get("kind") == "oracle"]
+                if oracle_fail:
+                    break
+
+    if problems and not oracle_fail and not any(p["kind"] == "harness-build" for p in problems):
+        for k, ex in enumerate(spec.search_extra):
+            if tier == "thorough" and any(ex[0] == t[0] and list(ex[2]) == list(t[2]) for t in spec.thorough_extra):
+                continue  # already ran in this tier
+            s = harness_round(list(ex[2]), seed, "searchx%d" % k, hname=ex[0], hoverlay=ex[1], hrace=ex[3])
             if s:
                 oracle_fail = [f for f in (s.get("failures") or []) if f.get("kind") == "oracle"]
                 if oracle_fail:
